@@ -524,6 +524,13 @@ func (rl *Shell) transposeWords() {
 		transposeWith, toTranspose = toTranspose, transposeWith
 	}
 
+	// The two words must be distinct, ordered regions of the line
+	// (they are not when one of them could not be selected at all).
+	if wbpos < 0 || wepos < wbpos || tbpos < wepos || tepos < tbpos || tepos > rl.line.Len() {
+		rl.cursor.Set(startPos)
+		return
+	}
+
 	// Assemble the newline
 	begin := string((*rl.line)[:wbpos])
 	newLine := append([]rune(begin), []rune(toTranspose)...)
